@@ -36,6 +36,11 @@ Base == [camel |-> FALSE, query |-> "Query", mutation |-> "", subscription |-> "
        fields |-> << Fld(<<"user", "name">>, Named("String"), <<>>, "user_name", "r_user_name", ""),
                      Fld(<<"node">>, Named("Node"), <<ArgD(<<"node", "id">>, Named("ID"), "node_id", [k |-> "str", v |-> "n1"])>>, "node", "r_node", ""),
                      Fld(<<"find", "items">>, ListOf(Named("Item")), <<Arg(<<"filter", "by">>, Named("Filter"), "filter_by"),
+                                                                        \* an input-object default: a COERCED value, keyed by the python names of Page's fields (which keep
+                                                                        \* their spelling under every transform)
+                                                                        ArgD(<<"page", "opts">>, Named("Page"), "page_opts",
+                                                                             [k |-> "dict", fs |-> <<[key |-> "page_size", val |-> [k |-> "int", v |-> "5"]],
+                                                                                                      [key |-> "sort_order", val |-> [k |-> "str", v |-> "asc"]]>>]),
                                                                         \* an explicit null default is a default (hasDef), not the absence of one
                                                                         ArgD(<<"max", "count">>, Named("Int"), "max_count", NoDef)>>, "find_items", "r_find", "old way"),
                      Fld(<<"find", "any">>, Named("U"), <<>>, "find_any", "", ""),
@@ -58,6 +63,8 @@ Base == [camel |-> FALSE, query |-> "Query", mutation |-> "", subscription |-> "
     [k |-> "input", name |-> "Filter", desc |-> "",
        fields |-> << ArgD(<<"min", "size">>, Named("Int"), "min_size", [k |-> "int", v |-> "1"]), Arg(<<"tags">>, ListOf(Named("String")), "tags"),
                      Arg(<<"min", "level">>, Named("Level"), "min_level"), ArgD(<<"only", "tag">>, Named("String"), "only_tag", NoDef) >>],
+    [k |-> "input", name |-> "Page", desc |-> "",
+       fields |-> << Arg(<<"page", "size">>, Named("Int"), "page_size"), Arg(<<"sort", "order">>, Named("String"), "sort_order") >>],
     [k |-> "object", name |-> "Sub", ifaces |-> <<>>, desc |-> "", dres |-> "", rt |-> "",
        \* a subscription field (resolver id r_sub: the harness also installs the subscription resolver sub_r_sub) WITH an argument:
        \* transforms that rewrite the argument rebuild the field and must keep both resolvers
